@@ -22,6 +22,7 @@ type PropSpec struct {
 	// Kinds restricts automatically generated (panic) obligations; contract
 	// obligations are selected by clause tags.
 	AutoKinds bool
+	InvariantMethods bool // also verify every method carrying a type invariant
 	Note      string
 	Extra     func(w *World, run *PropRun)
 }
@@ -124,6 +125,9 @@ func runCheck(args []string) int {
 	}
 	// transitive closure of roots over used contracts
 	todo := append([]string{}, spec.Roots...)
+	if spec.InvariantMethods {
+		todo = append(todo, w.invariantMethods...)
+	}
 	if r := os.Getenv("MQVC_ROOTS"); r != "" {
 		todo = strings.Split(r, ",")
 	}
@@ -210,6 +214,9 @@ func (run *PropRun) report(w *World, t0 time.Time) int {
 	knownPrinted := map[string]bool{}
 	var failed []*Result
 	for _, r := range run.Results {
+		if r.Ob.Kind == "map-range-order" && id != "C11" && id != "C01" {
+			continue // iteration-order dependence is decided under C11
+		}
 		total++
 		if r.Status == "unsat" {
 			discharged++
